@@ -5,7 +5,7 @@ import z3
 from sx import core as S, env as E, pl, plh, families as F, known
 
 PROPERTY = "C05"
-REGIONS = ["not-of-atom", "double-negation", "atoms-only", "compounds-only", "mixed", "negative-node", "integer-leaf", "explicit-id-kept", "via-Not"]
+REGIONS = ["second-negation-of-safe-intermediate", "not-of-atom", "double-negation", "atoms-only", "compounds-only", "mixed", "negative-node", "integer-leaf", "explicit-id-kept", "via-Not"]
 BOUNDS = ("PL family skeletons (<=7 compounds, depth<=3); value/sign of explicitly named AtLeast/AtMost nodes symbolic "
           "(|v|<=2^20); integer-leaf boxes symbolic in [-32768,32767]; leaf values symbolic in-box")
 OUTSIDE = "larger skeletons; symbolic thresholds on generated-id nodes (M6); the open known-finding class (negate on positive mixed node)"
@@ -37,6 +37,14 @@ def instantiations(tier, seed):
             mv = F.rename(m, {c["id"]: "VAR" + str(c["id"]) for c in pl.compounds(m) if c.get("id")})
             out.append({"model": mv, "via": "negate", "chain": 2})
             out.append({"model": m, "via": "Not", "chain": 2})
+    for k, sk in enumerate([F.AM(1, F.N("Any", F.a(), F.b(), id="B"), F.N("Any", F.c(), F.d(), id="C"), id="A"),
+                            F.AL(0, F.AL(1, F.a(), F.b(), id="B", sign=1), F.AL(1, F.c(), F.d(), id="C", sign=1), id="A", sign=-1),
+                            F.N("Xor", F.N("All", F.a(), F.b(), id="B"), F.N("Any", F.c(), F.d(), id="C"), id="A"),
+                            F.AM(0, F.N("All", F.a(), F.b(), id="B"), id="A")]):
+        # negatively signed parents over named compounds: not solver-safe themselves, their negation is; chains of two negations
+        m = F.rename(sk, F.ALT_NAMES[(k + seed) % len(F.ALT_NAMES)])
+        for via in ("Not", "negate"):
+            out.append({"model": m, "via": via, "chain": 2})
     # Not applied to an atom (documented as the complement of All(atom), i.e. of "atom >= 1"): boolean / str / integer atoms with any box
     for k, (form, chain) in enumerate([("variable", 1), ("variable", 2), ("str", 1), ("subclass", 1)]):
         out.append({"part": "atom", "form": form, "chain": chain, "model": F.N("All", F.V("q", "$lo_q", "$hi_q")), "via": "Not"})
@@ -127,13 +135,15 @@ def run_inst(spec, run):
             if spec.get("warm"):
                 plh.warm(ns, m1)
             neg = ns.pg.Not(m1) if spec["via"] == "Not" else m1.negate()
+            midsafe = None
             if spec.get("chain", 1) == 2:
                 mid_ = neg
+                midsafe = pl.solver_safe(ns, mid_)
                 neg = ns.pg.Not(mid_) if spec["via"] == "Not" else mid_.negate()
             val = neg.evaluate(dict(vals))
         except Exception as e:     # noqa
             err = "%s: %s" % (type(e).__name__, e)
-        return dict(env=env, vals=vals, ref=ref, kn=kn, neg=neg, val=val, err=err, safe0=safe0, shape=shape,
+        return dict(env=env, vals=vals, ref=ref, kn=kn, neg=neg, val=val, err=err, safe0=safe0, shape=shape, midsafe=locals().get("midsafe"),
                     m0sign=S.concrete(m0.sign), gen=m0.generated_id, mid=m0.id)
 
     def on_path(ctx, res):
@@ -168,6 +178,10 @@ def run_inst(spec, run):
             run.obligation(ctx, "id-kept", neg.id != res["mid"], conc)
         if all_bool and res["safe0"]:
             run.obligation(ctx, "solver-safe", not pl.solver_safe(ns, neg), conc)
+        if all_bool and res["midsafe"]:
+            # second step of a chain: the once-negated model is solver-safe, so negating IT must give a solver-safe model again
+            run.region("second-negation-of-safe-intermediate")
+            run.obligation(ctx, "solver-safe-second-step", not pl.solver_safe(ns, neg), conc)
         run.validate(ctx, conc, lambda m: {"neg": [S.model_int(m, val.lower), S.model_int(m, val.upper)], "negid": neg.id}, extremes=plh.extremes(env), known=kn)
         run.sample({"model": pl.show(model_spec), "via": spec["via"], "path_condition": [str(z3.simplify(c)) for c in ctx.pc][:6],
                     "negation": repr(neg)[:200]})
